@@ -172,6 +172,38 @@ def canonical_param_names(fx):
     return done
 
 
+ADT_NAMES_FILE = os.path.join(os.path.dirname(os.path.abspath(__file__)), "adt_names.json")
+
+
+def _adt_shape(a):
+    return (a["kind"], tuple(sorted((v["name"] if len(a["variants"]) > 1 else "", tuple(sorted(f_["name"] for f_ in v["fields"]))) for v in a["variants"])))
+
+
+def canonical_adt_names(d):
+    """The name of a type that cannot be named outside the crate is not behaviour. `adt_names.json` freezes the reference tree's
+    crate-private types (module, name, kind, field names per variant). A private type of the analysed tree that the table does not
+    know, in a module where exactly one table type is missing, of the same kind and with the same variants and field names, is that
+    type under a new name: its qualified name is replaced by the reference's throughout the fact file (types are spelled
+    `module::Name` there). Anything less than a unique structural match is left alone. Returns {"module::New": "module::Old"}."""
+    try:
+        table = json.load(open(ADT_NAMES_FILE))
+    except OSError:
+        return {}
+    have = {a["path"]: a for a in d["items"]["adts"] if a["path"].startswith("proguard::")}
+    missing = [p_ for p_ in table if p_ not in have]
+    extra = [p_ for p_, a in have.items() if p_ not in table and not a.get("reachable_pub")]
+    out = {}
+    names_in_use = {p_.rsplit("::", 1)[1] for p_ in have}
+    for e in extra:
+        mod = e.rsplit("::", 1)[0]
+        cands = [m for m in missing if m.rsplit("::", 1)[0] == mod and table[m]["shape"] == json.loads(json.dumps(_adt_shape(have[e])))]
+        rivals = [x for x in extra if x != e and x.rsplit("::", 1)[0] == mod and _adt_shape(have[x]) == _adt_shape(have[e])]
+        if len(cands) == 1 and not rivals and cands[0].rsplit("::", 1)[1] not in names_in_use:
+            strip = lambda q: q[len("proguard::"):]
+            out[strip(e)] = strip(cands[0])
+    return out
+
+
 FIELD_NAMES_FILE = os.path.join(os.path.dirname(os.path.abspath(__file__)), "field_names.json")
 
 
@@ -335,11 +367,20 @@ class Facts:
         self.items = {}       # crate -> items
         self.errors = []
         self.crates = []
+        self.renamed_adts = {}
         for c in crates:
             p = os.path.join(fact_dir, c + ".json")
             if not os.path.exists(p):
                 continue
             d = json.load(open(p))
+            if c == "proguard":
+                ren = canonical_adt_names(d)
+                if ren:
+                    txt = open(p).read()
+                    for new_q, old_q in ren.items():
+                        txt = re.sub(r"(?<![\w])%s(?![\w])" % re.escape(new_q), old_q, txt)
+                    d = json.loads(txt)
+                    self.renamed_adts = ren
             self.crates.append(c)
             for b in d["bodies"]:
                 self.bodies[b["path"]] = b
